@@ -189,7 +189,7 @@ def run(prop, tier, seed):
         # (3) wide-range + directed
         nr = 180 if quick else 4000
         rnd = [gen_core.gen_scenario(seed, i) for i in range(nr)]
-        big = [gen_core.gen_big(seed, i) for i in range(8 if quick else 64)]
+        big = [gen_core.gen_big(seed, i) for i in range(24 if quick else 240)]
         direct = directed_scenarios()
         scs = beh + rnd + big + direct
         binp = vbuild.build_inpkg("server", wd)
